@@ -171,6 +171,7 @@ func (e *Engine) verifyFunction(fn *ssa.Function, fc *FuncContract) (c *Ctx) {
 	f.entry = entryState
 	// postconditions, frames (returns numbered in source order)
 	sort.SliceStable(f.rets, func(i, j int) bool { return f.rets[i].pos < f.rets[j].pos })
+	var exitsSeen map[*Clause]error
 	for ri, rt := range f.rets {
 		if fc == nil {
 			continue
@@ -196,6 +197,25 @@ func (e *Engine) verifyFunction(fn *ssa.Function, fc *FuncContract) (c *Ctx) {
 				continue
 			}
 			f.oblige("ensures"+en.Tag()+suffix, en, rt.reach, g)
+		}
+		// exit assertions may mention locals; they are checked at the returns where those locals are live
+		exitEv := &EvalCtx{c: c, pkg: fn.Pkg.Pkg.Name(), st: rt.st, old: entryState, vars: post.vars, reach: rt.reach, frame: f}
+		for _, ex := range fc.Exits {
+			g, err := c.skolemGoal(ex.Expr, exitEv, rt.reach)
+			if err != nil {
+				if exitsSeen == nil {
+					exitsSeen = map[*Clause]error{}
+				}
+				if _, ok := exitsSeen[ex]; !ok {
+					exitsSeen[ex] = err
+				}
+				continue
+			}
+			if exitsSeen == nil {
+				exitsSeen = map[*Clause]error{}
+			}
+			exitsSeen[ex] = nil
+			f.oblige("exit"+ex.Tag()+suffix, ex, rt.reach, g)
 		}
 		if kfc != nil {
 			short := fc.Implements[strings.Index(fc.Implements, ".")+1:]
@@ -246,6 +266,17 @@ func (e *Engine) verifyFunction(fn *ssa.Function, fc *FuncContract) (c *Ctx) {
 				if _, ok := objs["ghost:"+name]; !ok {
 					f.oblige("frame[ghost:"+name+"]"+suffix, nil, rt.reach, "(= "+c.ghostTerm(rt.st, name)+" "+c.ghostTerm(entryState, name)+")")
 				}
+			}
+		}
+	}
+	if fc != nil {
+		for _, ex := range fc.Exits {
+			if err, ok := exitsSeen[ex]; !ok || err != nil {
+				if err == nil {
+					err = fmt.Errorf("no return reached")
+				}
+				c.errorf("%s: exit %s applies at no return: %v", ex.Where, ex.Tag(), err)
+				f.unbound("exit"+ex.Tag(), ex, err)
 			}
 		}
 	}
